@@ -584,12 +584,12 @@ class MultiVector:
         if all(isinstance(v, (int, float, complex)) for v in self.values()):
             # In floating point the non-scalar part of the square of a simple element only vanishes up to rounding.
             scale = max((abs(v) for v in self.values()), default=0) ** 2
-            ll = ll.filter(lambda v: abs(v) > 1e-12 * scale)
+            ll = ll.filter(lambda k, v: v != 0 if k == 0 else abs(v) > 1e-12 * scale)
         elif any(type(v).__module__ == 'numpy' and v.ndim and v.dtype.kind in 'iufc' for v in self.values()):
             # Array valued coefficients: an entry of the square is dropped when it vanishes for all elements.
             import numpy as np
-            scale = max(np.max(np.abs(v), initial=0) for v in self.values()) ** 2
-            ll = ll.filter(lambda v: np.any(np.abs(v) > 1e-12 * scale))
+            scale = reduce(np.maximum, (np.abs(v) for v in self.values())) ** 2
+            ll = ll.filter(lambda k, v: np.any(v != 0) if k == 0 else np.any(np.abs(v) > 1e-12 * scale))
         else:
             ll = ll.filter()
         if ll.grades and ll.grades != (0,):
